@@ -12,8 +12,92 @@ import YtkProofs.DiffOverlay
 import YtkProofs.DiffDet
 import YtkProofs.DiffTies
 import YtkProofs.ValidB
+import YtkProofs.Decisions2
+import YtkModel.Generated.Constants
 
 namespace Ytk.C07
+
+/-! ## decision tables regenerated from the source (extract/tables2.go) -/
+section DecisionTables2
+open Ytk.TableT
+
+/-- (i) The kind-pair chain of diff.handleExisting, regenerated from diff/diff.go as an ORDERED case
+    table, decides as the case table of the model's `emitNode` does — for every pair of node kinds the
+    first matching arm runs the statements the model's decision stands for, and those statements stand
+    for no other decision (stated on the decisions, so reordering disjoint arms is harmless); diffList, flattenLeaf, flattenNode, appendMod, the two key
+    loops of diff() and the three modification-type constants are the model's; and `emitNode`,
+    `emitLeft`, `emitRight`, `flatNode` do what those tables say on ALL nodes. -/
+theorem diff_dispatch_table_matches_model :
+    (∀ x ∈ kindShapes, ∀ y ∈ kindShapes,
+      armStepsFor Generated.diffHandleExisting x y = (diffDecision x y).steps ∧
+      DiffAct.ofSteps (armStepsFor Generated.diffHandleExisting x y) = some (diffDecision x y)) ∧
+    Generated.diffListSteps = diffListStepsM ∧ Generated.diffFlattenLeafSteps = flattenLeafStepsM ∧
+    Generated.diffFlattenNodeSteps = flattenNodeStepsM ∧ Generated.diffAppendModSteps = appendModStepsM ∧
+    Generated.diffKeyCases = diffKeyCasesM ∧
+    Generated.diffModTypes = ModType.all.map ModType.goConst ∧
+    (∀ (l r : Node) (p : String),
+      match diffDecision l.shape r.shape with
+      | .recurse => ∃ a b, l = .cont a ∧ r = .cont b ∧ emitNode l r p = emitLeft a b p ++ emitRight b a p
+      | .lists => ∃ xs ys, l = .list xs ∧ r = .list ys ∧
+          emitNode l r p = if equals (.list xs) (.list ys) then [] else Mod.mkDel p :: flatList xs p 0
+      | .compare => ∃ a b, l = .leaf a ∧ r = .leaf b ∧ emitNode l r p = if a = b then [] else [Mod.mkChange p b a]
+      | .replace => emitNode l r p = Mod.mkDel p :: flatNode r p) ∧
+    (∀ k n rest r p, emitLeft ((k, n) :: rest) r p =
+      (match child r k with
+       | some n2 => emitNode n n2 (toPath p k)
+       | none => flatNode n (toPath p k)) ++ emitLeft rest r p) ∧
+    (∀ k (n : Node) rest l p, emitRight ((k, n) :: rest) l p =
+      (match child l k with
+       | some _ => []
+       | none => [Mod.mkDel (toPath p k)]) ++ emitRight rest l p) ∧
+    (∀ v p, flatNode (.leaf v) p = [⟨.add, p, v, Scalar.null⟩]) :=
+  ⟨by decide +kernel, by decide +kernel, by decide +kernel, by decide +kernel, by decide +kernel,
+   by decide +kernel, by decide +kernel, emitNode_decision, emitLeft_step, emitRight_step, flatNode_leaf⟩
+
+/-- (ii) The rule of the property on the regenerated tables: for a position both sides have, two
+    containers are diffed recursively; two lists go through diffList, which — only when the lists differ
+    — emits one Delete of the position immediately followed by Adds for the leaves of the LEFT list; two
+    scalars that differ give one Change carrying both values (Value = the right one, OldValue = the left
+    one) and equal ones nothing; a position whose kind differs gives one Delete of that position
+    immediately followed by Adds for the leaves of the RIGHT node.  A key only the left has is flattened
+    into one Add per leaf (value, no old value), a key only the right has is one Delete, and a common key
+    emits nothing in the second loop.  appendMod stores type, path, value, old value where they belong,
+    and the three modification types are `Add`, `Change`, `Delete` — the values of the constants the
+    constants table has. -/
+theorem diff_table_rule :
+    (∀ x ∈ kindShapes, ∀ y ∈ kindShapes, x ≠ y →
+      armStepsFor Generated.diffHandleExisting x y =
+        ["appendMod(ModDelete,arg2,nil,nil,arg3)", "flattenNode(arg1,arg2,arg3)"]) ∧
+    armStepsFor Generated.diffHandleExisting .container .container = [stmtRecurse] ∧
+    armStepsFor Generated.diffHandleExisting .list .list = [stmtDiffList] ∧
+    armStepsFor Generated.diffHandleExisting .leaf .leaf = [stmtCompare] ∧
+    Generated.diffListSteps =
+      ["if !arg0.Equals(arg1){appendMod(ModDelete,arg2,nil,nil,arg3);flattenList(arg0,arg2,arg3)}"] ∧
+    Generated.diffFlattenLeafSteps = ["appendMod(ModAdd,arg1,arg0.Value(),nil,arg2)"] ∧
+    Generated.diffAppendModSteps = ["*arg4=append(*arg4,Modification{Type:arg0,Path:arg1,Value:arg2,OldValue:arg3})"] ∧
+    armSteps Generated.diffKeyCases "left:both" = some ["handleExisting(item,found,utils.ToPath(arg2,key),arg3)"] ∧
+    armSteps Generated.diffKeyCases "left:leftOnly" = some ["flattenNode(item,utils.ToPath(arg2,key),arg3)"] ∧
+    armSteps Generated.diffKeyCases "right:both" = some [] ∧
+    armSteps Generated.diffKeyCases "right:rightOnly" = some ["appendMod(ModDelete,utils.ToPath(arg2,key),nil,nil,arg3)"] ∧
+    Generated.diffModTypes.map (·.2) = ["Add", "Change", "Delete"] ∧
+    (∀ c ∈ Generated.diffModTypes, Generated.const? ("diff." ++ c.1) = some c.2) := by
+  decide +kernel
+
+/-- (iii) the tables are not empty: the chain ends in a catch-all arm, no arm is shadowed by an earlier
+    one (every arm is the first match for some pair of kinds), the constants and the key cases are
+    distinct -/
+theorem nonvacuous_diff_tables :
+    Generated.diffHandleExisting.length = 4 ∧
+    (Generated.diffHandleExisting.getLast?.map fun a => (a.left, a.right)) = some ("any", "any") ∧
+    (Generated.diffHandleExisting.map fun a => (a.left, a.right)).Nodup ∧
+    (∀ a ∈ Generated.diffHandleExisting, ∃ x ∈ kindShapes, ∃ y ∈ kindShapes,
+      armStepsFor Generated.diffHandleExisting x y = a.steps) ∧
+    (Generated.diffModTypes.map (·.1)).Nodup ∧ (Generated.diffModTypes.map (·.2)).Nodup ∧
+    (conds Generated.diffKeyCases).Nodup ∧ Generated.diffKeyCases.length = 4 ∧
+    (DiffAct.all.map DiffAct.steps).Nodup := by
+  decide +kernel
+
+end DecisionTables2
 
 /-- Diff(L, L) = []. -/
 theorem diff_self (l : AMap Node) (hl : (Node.cont l).Valid) : diff l l = [] := by
